@@ -119,6 +119,19 @@ def run(rng, tier, model_ok):
         inputs.append(quantity_expr(rng, V, rng.randint(1, 3)))
     for _ in range(n // 4):
         inputs.append("".join(rng.choice(WEIRD + list("01 +-*/^()m.e%{}")) for _ in range(rng.randint(1, 30))))
+    # boundary operands in every position of every operator: zeros, absolute zero on each scale, percentages, casts of them
+    pool = ["0", "0 m", "0 K", "-273.15 °C", "-459.67 °F", "0 °C", "0 °F", "1 m", "2", "1 s", "273.15 K", "(0 K to °C)", "(0 K to °F)",
+            "100 %", "0 %", "1 m/s", "0 m/s", "1 °C", "(1 - 1)", "0.0 kg", "-0", "1 km", "(-273.15 °C to K)", "pi", "(2 - 2) m"]
+    for a in pool:
+        for b in pool:
+            for op in ("+", "-", "*", "/"):
+                inputs.append("%s %s %s" % (a, op, b))
+        for k in ("0", "-1", "2", "-2"):
+            inputs.append("(%s) ^ %s" % (a, k))
+        for u in ("K", "°C", "°F", "m", "s", "m/s"):
+            inputs.append("%s to %s" % (a, u))
+        for f in ("round", "floor", "ceil"):
+            inputs.append("%s(%s)" % (f, a))
     inputs = [s for s in inputs if "\x00" not in s and power_budget_ok(s)]
     failures = []
     stats = {"inputs": len(inputs), "error_results": 0, "value_results": 0, "panics_debug": 0, "panics_release": 0}
